@@ -12,6 +12,7 @@ import (
 	"runtime"
 	"strings"
 	"sync"
+	"syscall"
 	"time"
 )
 
@@ -468,6 +469,7 @@ func verifFireTimer() {}
 // ---- file system observation (native) ----
 func verifFSFaults(on bool) {}
 func verifTempDir() string {
+	syscall.Umask(0o22) // A-umask: the file-system model creates files with the usual umask
 	d, err := os.MkdirTemp("", "verif-fs-")
 	if err != nil {
 		panic(err)
